@@ -114,14 +114,7 @@ def DictTab.toDict (t : DictTab) : PenDict := fun a => (t[PenAttr.all.idxOf a]?)
 def tabulate (d : PenDict) : DictTab := (PenAttr.all.map d).toArray
 def DictTab.empty : DictTab := tabulate PenDict.empty
 
-def fieldOf : PenAttr → Nat × Bool
-  | .fg => (fgindex_width, fgindex_signed) | .bg => (bgindex_width, bgindex_signed)
-  | .bold => (bold_width, bold_signed) | .under => (under_width, under_signed)
-  | .italic => (italic_width, italic_signed) | .reverse => (reverse_width, reverse_signed)
-  | .strike => (strike_width, strike_signed) | .altfont => (altfont_width, altfont_signed)
-  | .blink => (blink_width, blink_signed) | .sizepos => (sizepos_width, sizepos_signed)
-
-def representable (a : PenAttr) (v : Int) : Bool := decide (Representable (fieldOf a).1 (fieldOf a).2 v)
+def representable (a : PenAttr) (v : Int) : Bool := decide (a.Representable v)
 
 /-- What the implementation's dump says attribute `a` reads as through its own getter. -/
 def typedRead (po : PenObs) (a : PenAttr) : PenVal :=
